@@ -22,11 +22,18 @@ fn same<T: Eq + Ord + Hash>(o: &mut CaseOut, a: &T, b: &T, what: &str) {
     o.check(a == b && b == a, &format!("{what}:equal-models-compare-unequal"), String::new);
     o.check(a.cmp(b) == Ordering::Equal && b.cmp(a) == Ordering::Equal && a.partial_cmp(b) == Some(Ordering::Equal), &format!("{what}:equal-models-not-Ordering::Equal"), String::new);
     o.check(h(a) == h(b), &format!("{what}:equal-models-hash-differently"), String::new);
+    #[allow(clippy::nonminimal_bool)]
+    let ops_ok = !(a != b) && !(a < b) && !(a > b) && a <= b && a >= b;
+    o.check(ops_ok, &format!("{what}:equal-models-but-ne/lt/gt/le/ge-disagree"), String::new);
 }
 
 fn differ<T: Eq + Ord + Hash>(o: &mut CaseOut, a: &T, b: &T, what: &str) {
     o.check(a != b && b != a, &format!("{what}:different-models-compare-equal"), String::new);
     o.check(a.cmp(b) != Ordering::Equal && a.cmp(b) == b.cmp(a).reverse(), &format!("{what}:cmp-inconsistent-with-eq"), String::new);
+    let less = a.cmp(b) == Ordering::Less;
+    #[allow(clippy::nonminimal_bool)]
+    let ops_ok = !(a == b) && (a < b) == less && (a <= b) == less && (a > b) != less && (a >= b) != less && a.partial_cmp(b) == Some(a.cmp(b));
+    o.check(ops_ok, &format!("{what}:eq/lt/le/gt/ge/partial_cmp-inconsistent-with-cmp"), String::new);
 }
 
 /// Build `m` by a detour-laden history: permuted adds, add + remove of arcs
@@ -94,6 +101,24 @@ where
     let mut m3 = m.clone();
     m3.verts.insert(n);
     differ(o, &a, &D::build(&m3), &format!("{name}(order + 1, same arcs)"));
+    // clone_from into an existing digraph of another order / arc set
+    {
+        let n2 = match r.below(3) {
+            0 => n + 1 + r.below(3),
+            1 => (n / 2).max(1),
+            _ => n,
+        };
+        let dens = *r.pick(&[0.0, 0.5, 1.0]);
+        let other = gen::random_arcs(r, n2, dens);
+        let mut x = D::build(&other);
+        x.clone_from(&a);
+        same(o, &a, &x, &format!("{name}(clone_from into order {n2})"));
+        observe(&x, m, o, &format!("{name}:clone_from-result"), !p_big);
+        let mut y = a.clone();
+        y.clone_from(&D::build(&other));
+        observe(&y, &other, o, &format!("{name}:clone_from-result(rev)"), !p_big);
+        observe(&a, m, o, &format!("{name}:original-after-clone_from"), false);
+    }
     // clone: equal and independent
     let mut c = a.clone();
     same(o, &a, &c, &format!("{name}(clone)"));
@@ -151,6 +176,18 @@ pub fn case(idx: u64, seed: u64, p: &Params, o: &mut CaseOut) {
             let mut m2 = m.clone();
             m2.verts.insert(n + 1 + r.below(100));
             differ(o, &a, &build_map_any(&m2), "AdjacencyMap(extra isolated vertex)");
+            // same order, same arcs, but isolated vertices with different ids
+            let (i1, i2) = (n + 1 + r.below(50), n + 60 + r.below(50));
+            let (mut x1, mut x2) = (m.clone(), m.clone());
+            x1.verts.insert(i1);
+            x2.verts.insert(i2);
+            differ(o, &build_map_any(&x1), &build_map_any(&x2), "AdjacencyMap(isolated vertices with different ids)");
+            let mut x3 = x1.clone();
+            x3.verts.insert(i2);
+            let f1 = build_map_any(&x3).filter_vertices(|v| v != i1);
+            let f2 = build_map_any(&x3).filter_vertices(|v| v != i2);
+            differ(o, &f1, &f2, "AdjacencyMap(filter_vertices dropping different isolated vertices)");
+            same(o, &f1, &build_map_any(&x2), "AdjacencyMap(filter_vertices vs direct construction)");
             // two histories to the same sparse digraph
             let s = gen::sparsify(&mut r, &m);
             let x = build_map_any(&s);
@@ -231,6 +268,10 @@ pub fn case(idx: u64, seed: u64, p: &Params, o: &mut CaseOut) {
                     let mut m3 = m.clone();
                     m3.verts.insert(n);
                     differ(o, &a, &$build(&m3), &format!("{name}(order + 1, same arcs)"));
+                    let mut x = $build(&m3);
+                    x.clone_from(&a);
+                    same(o, &a, &x, &format!("{name}(clone_from)"));
+                    observe_w(&x, &m, o, &format!("{name}:clone_from-result"), |x| *x as i64);
                 }};
             }
             if ty == 4 {
